@@ -62,7 +62,9 @@ class LeastSquaresScipyStrategy(HoloPyObject):
             raise MissingParameter('at least one parameter to fit')
 
         if self.npixels is None:
+            original_dims = {key: data[key].values for key in data.dims}
             data = flat(data)
+            data.attrs = dict(data.attrs, original_dims=original_dims)
         else:
             data = make_subset_data(data, pixels=self.npixels)
         guess_lnprior = model.lnprior(model.initial_guess)
@@ -94,8 +96,11 @@ class LeastSquaresScipyStrategy(HoloPyObject):
 
         # timing decorator...
         d_time = time.time() - time_start
-        kwargs = {'intervals': intervals, 'minimizer_info': minimizer_info}
-        return FitResult(data, model, self, d_time, kwargs)
+        result = FitResult(data, model, self, d_time, {'intervals': intervals})
+        # scipy's OptimizeResult cannot be written to (or read back from) the
+        # result file, so it lives on the in-memory result only
+        result.minimizer_info = minimizer_info
+        return result
 
     def minimize(self, parameters, residuals_function):
         initial_parameter_guess = [par.scale(par.guess) for par in parameters]
